@@ -20,6 +20,11 @@ def Sil.new (fixed : Bool) (value initial : Nat) : Sil :=
   { current := (initial : Int) * 256, fixedUpdateRate := fixed, value := value,
     currentTarget := initial, diffMem := 0, stepRemMem := 0 }
 
+/-- `silencer_emulator_{phase,intensity}_continue_with(prev)`: a new emulator object takes over the running filter
+(`current`, `current_target`, `diff_mem`, `step_rem_mem`) under the device's configuration at that moment -/
+def Sil.continueWith (s : Sil) (fixed : Bool) (value : Nat) : Sil :=
+  { s with fixedUpdateRate := fixed, value := value }
+
 /-- the part of `update_rate` shared by both filters, after `diff` has been computed -/
 def Sil.rateOfDiff (s : Sil) (input diff : Nat) : Sil × Nat :=
   let s := { s with currentTarget := input }
